@@ -181,6 +181,19 @@ def selection_correspondence(ctx, R, rows):
         ctx.failed_stages.append(('correspondence', 'exported rule vs real selection: %s' % (missing[0],)))
 
 
+def real_li(rd, imm):
+    """the instructions the real Li pseudo-instruction renders"""
+    from ppci.arch.riscv import instructions as I, registers as Rg
+    out = []
+    for ins in I.Li(Rg.get_register(rd), imm).render():
+        ops = []
+        for fa in type(ins).syntax.formal_arguments:
+            x = getattr(ins, fa._name)
+            ops.append(x.num if hasattr(x, 'num') else x)
+        out.append((type(ins).syntax.syntax[0], ops))
+    return out
+
+
 def rule_search(ctx, R, rows, flags):
     from props import c08
     wit = {}
@@ -189,7 +202,7 @@ def rule_search(ctx, R, rows, flags):
         if R.row_sem(r) is None:
             continue
         n += 1
-        w = R.find_witness(r, ctx.rng, RV, c08.rv_expect, c08.apply_view, tries=400 if ctx.quick() else 3000)
+        w = R.find_witness(r, ctx.rng, RV, c08.rv_expect, c08.apply_view, tries=400 if ctx.quick() else 3000, li=real_li)
         if w:
             wit[r['idx']] = w
     ctx.cov['stages']['rule_level'] = {'rules_tested': n, 'rules_with_counterexample': len(wit)}
